@@ -352,3 +352,118 @@ func H_c15_socks_admin() {
 	verif_assert(len(A.SocksCli) == want, "closing a proxy removes its sockets from the socket table and no others")
 	verif_witness()
 }
+
+// H_c15_portfwd: reverse port-forward sockets: an OPEN callback registers the socket under
+// its id (once); data the agent returns for client socket s reaches the forward target of s
+// unmodified (the target connection is opened on first data, to the address announced at
+// OPEN) and no other connection; data for an unknown id reaches nobody; a REMOVE callback
+// closes and removes exactly that socket. No table mutex stays held.
+func H_c15_portfwd() {
+	ts, A, _, _ := verifStateS()
+	c1 := &VerifConn{}
+	A.PortFwds = []*PortFwd{
+		{SocktID: 7, Conn: c1, Target: "10.0.0.7:70"},
+		{SocktID: 9, Conn: nil, Target: "10.0.0.9:90"},
+	}
+	VerifDials = nil
+	sid := nondet_u32("socket-id")
+	op := nondet_choice("op", 3)
+	data := nondet_bytes("data", nondet_choice("data-len", 4))
+	var body []byte
+	switch op {
+	case 0: // OPEN: id, local addr, local port, forward addr, forward port
+		body = append(verifPutBE32(nil, SOCKET_COMMAND_OPEN), verifPutBE32(nil, sid)...)
+		body = verifPutBE32(body, 0x0100007f)
+		body = verifPutBE32(body, 4444)
+		body = verifPutBE32(body, 0x0b00000a)
+		body = verifPutBE32(body, 8080)
+	case 1: // READ for a client socket: id, type, success, data
+		body = append(verifPutBE32(nil, SOCKET_COMMAND_READ), verifPutBE32(nil, sid)...)
+		body = verifPutBE32(body, SOCKET_TYPE_CLIENT)
+		body = verifPutBE32(body, 1)
+		body = verifPutBytes(body, data)
+	case 2: // REMOVE: id, type, local addr, local port, forward addr, forward port
+		body = append(verifPutBE32(nil, SOCKET_COMMAND_RPORTFWD_REMOVE), verifPutBE32(nil, sid)...)
+		body = verifPutBE32(body, SOCKET_TYPE_CLIENT)
+		body = verifPutBE32(body, 0x0100007f)
+		body = verifPutBE32(body, 4444)
+		body = verifPutBE32(body, 0x0b00000a)
+		body = verifPutBE32(body, 8080)
+	}
+	verif_drop_goroutines()
+	A.TaskDispatch(1, COMMAND_SOCKET, parser.NewParser(body), ts)
+
+	find := func(id int) *PortFwd {
+		var hit *PortFwd
+		n := 0
+		for _, p := range A.PortFwds {
+			if p.SocktID == id {
+				hit = p
+				n++
+			}
+		}
+		verif_assert(n <= 1, "a socket id is in the forward table at most once")
+		return hit
+	}
+	p7, p9 := find(7), find(9)
+	switch op {
+	case 0:
+		if sid != 7 && sid != 9 {
+			verif_assert(len(A.PortFwds) == 3, "an OPEN for a new id registers one socket")
+			if n := find(int(sid)); n != nil {
+				verif_assert(n.Conn == nil, "the target connection is not opened before there is data")
+				verif_assert(n.FwdPort == 8080, "the socket remembers the forward port announced at OPEN")
+			} else {
+				verif_fail("the opened socket is registered under its id")
+			}
+		} else {
+			verif_assert(len(A.PortFwds) == 2, "an OPEN for a known id changes nothing")
+		}
+		verif_assert(len(c1.Written) == 0, "an OPEN writes nothing to any target")
+	case 1:
+		switch sid {
+		case 7:
+			verif_assert(len(c1.Written) == 1, "data for an open forward is written once to its target")
+			if len(c1.Written) == 1 {
+				verifSameBytesA(c1.Written[0], data, "forwarded bytes are unmodified")
+			}
+			verif_assert(len(VerifDials) == 0, "an open forward is not dialled again")
+		case 9:
+			verif_assert(len(c1.Written) == 0, "data for socket s reaches no other forward")
+			verif_assert(len(VerifDials) == 1, "the target of a forward is dialled on first data")
+			if len(VerifDials) == 1 {
+				verif_assert(VerifDials[0] == "10.0.0.9:90", "the connection goes to the target announced for this socket")
+			}
+			if p9 != nil {
+				if p9.Conn != nil {
+					vc := p9.Conn.(*VerifConn)
+					verif_assert(len(vc.Written) == 1, "the first data is written once to the freshly opened target")
+					if len(vc.Written) == 1 {
+						verifSameBytesA(vc.Written[0], data, "forwarded bytes are unmodified")
+					}
+					verif_assert(verif_go_count() == 1 || verif_go_count() == -1, "one reader goroutine per opened forward")
+				}
+			}
+		default:
+			verif_assert(len(c1.Written) == 0, "data for an unknown socket id reaches no target")
+			verif_assert(len(VerifDials) == 0, "data for an unknown socket id opens no connection")
+		}
+		verif_assert(len(A.PortFwds) == 2, "data does not add or remove sockets")
+	case 2:
+		switch sid {
+		case 7:
+			verif_assert(p7 == nil, "a removed socket leaves the forward table")
+			verif_assert(c1.Closed, "removing a socket closes its target connection")
+			verif_assert(p9 != nil, "removing s keeps the other sockets")
+		case 9:
+			verif_assert(p9 == nil, "a removed socket leaves the forward table")
+			verif_assert(!c1.Closed, "removing s leaves other connections alone")
+			verif_assert(p7 != nil, "removing s keeps the other sockets")
+		default:
+			verif_assert(len(A.PortFwds) == 2, "removing an unknown id changes nothing")
+			verif_assert(!c1.Closed, "removing an unknown id closes nothing")
+		}
+	}
+	verif_no_locks_held("port-forward callback leaves no table mutex held")
+	verif_witness()
+}
